@@ -8,6 +8,9 @@ use crate::spec::EnumSpec;
 use std::collections::HashSet;
 
 pub struct Dev {
+    /// shared "shape / syntax / context" deviations: combined with at most ONE other deviation (they multiply the program
+    /// count of the k = 3 levels without adding interesting triples)
+    pub peripheral: bool,
     pub label: String,
     /// two deviations sharing a slot are incompatible (they edit the same thing)
     pub slots: Vec<String>,
@@ -15,7 +18,7 @@ pub struct Dev {
 }
 
 pub fn dev(label: impl Into<String>, slots: &[&str], f: impl Fn(&mut EnumSpec) -> bool + 'static) -> Dev {
-    Dev { label: label.into(), slots: slots.iter().map(|s| s.to_string()).collect(), apply: Box::new(f) }
+    Dev { peripheral: false, label: label.into(), slots: slots.iter().map(|s| s.to_string()).collect(), apply: Box::new(f) }
 }
 
 pub struct Enumerated {
@@ -93,6 +96,13 @@ fn rec(
         if clash {
             continue;
         }
+        if level >= 3 && (devs[i].peripheral || chosen.iter().any(|&j| devs[j].peripheral)) {
+            continue;
+        }
+        // two peripheral deviations are not combined with one another either
+        if devs[i].peripheral && chosen.iter().any(|&j| devs[j].peripheral) {
+            continue;
+        }
         chosen.push(i);
         rec(base, base_label, devs, level, i + 1, chosen, out, seen, excluded, domain);
         chosen.pop();
@@ -101,7 +111,7 @@ fn rec(
 
 /// surface-syntax deviations (they do not change the meaning of the definition); append them LAST so that
 /// they see the attributes added by the other deviations
-pub fn syntax_devs(literals: bool, ints: bool, attrs: bool, docs: bool) -> Vec<Dev> {
+fn syntax_devs_inner(literals: bool, ints: bool, attrs: bool, docs: bool) -> Vec<Dev> {
     let mut d = Vec::new();
     if literals {
         for f in ["raw-literals", "escaped-literals"] {
@@ -164,7 +174,7 @@ pub fn syntax_devs(literals: bool, ints: bool, attrs: bool, docs: bool) -> Vec<D
 /// Generic parameter lists beyond a single parameter: several parameters of different kinds, bounds given only in a
 /// `where` clause, a lifetime next to type and const parameters. Every parameter is used by variant 0 (and 1).
 /// `lifetime_ok`: the derive under test admits lifetime parameters.
-pub fn rich_generic_devs(lifetime_ok: bool) -> Vec<Dev> {
+fn rich_generic_devs_inner(lifetime_ok: bool) -> Vec<Dev> {
     use crate::spec::{FieldTy, Generic, Kind, NamedField};
     let phantom = || FieldTy::Raw("::core::marker::PhantomData<[u8; N]>".into(), "PhantomData<[u8; 3]>".into());
     let free0 = |s: &EnumSpec| !s.variants.is_empty() && !s.variants[0].default && !s.variants[0].transparent && !s.variants[0].default_with;
@@ -232,7 +242,7 @@ pub fn rich_generic_devs(lifetime_ok: bool) -> Vec<Dev> {
 /// Declaration-context deviation: the enum (and all the glue items) is declared inside the body of `run` instead of at
 /// module level. The meaning of the definition is unchanged; generated code that relies on module-level paths to reach the
 /// enum or its helper items (an inner `mod`, `self::`/`super::` paths) stops compiling.
-pub fn context_devs() -> Vec<Dev> {
+fn context_devs_inner() -> Vec<Dev> {
     vec![
         dev("context: enum declared inside a fn body", &["ctx"], |s| {
             s.syntax.push("in-fn".into());
@@ -268,7 +278,7 @@ pub fn into_fn_body(source: &str) -> String {
 /// Variant shapes that are legal but rare: empty field lists `V()` / `V {}` (not unit variants syntactically), and a second
 /// variant whose identifier differs from the first one's only in letter case (`Kk` / `KK`).
 /// `case_twin`: whether two such identifiers are inside the domain of the derive under test.
-pub fn rare_shape_devs(n: usize, case_twin: bool) -> Vec<Dev> {
+fn rare_shape_devs_inner(n: usize, case_twin: bool) -> Vec<Dev> {
     use crate::spec::Kind;
     let mut d = Vec::new();
     for i in 0..n {
@@ -366,9 +376,49 @@ pub fn generics_all_used(s: &EnumSpec) -> bool {
 
 /// Scope deviation for the derives whose generated code is written with full paths for the prelude's Ok / Err / Some / None
 /// (all but EnumIter and EnumTryAs on the unchanged tree): these names are re-bound where the enum is declared.
-pub fn rebound_prelude_devs() -> Vec<Dev> {
+fn rebound_prelude_devs_inner() -> Vec<Dev> {
     vec![dev("context: Ok / Err / Some / None are re-bound in the scope of the enum", &["ctx", "evis", "dvis", "dd"], |s| {
         s.syntax.push("rebound-prelude-fns".into());
         true
     })]
+}
+
+pub fn syntax_devs(literals: bool, ints: bool, attrs: bool, docs: bool) -> Vec<Dev> {
+    let mut v = syntax_devs_inner(literals, ints, attrs, docs);
+    for d in v.iter_mut() {
+        d.peripheral = true;
+    }
+    v
+}
+
+pub fn rich_generic_devs(lifetime_ok: bool) -> Vec<Dev> {
+    let mut v = rich_generic_devs_inner(lifetime_ok);
+    for d in v.iter_mut() {
+        d.peripheral = true;
+    }
+    v
+}
+
+pub fn context_devs() -> Vec<Dev> {
+    let mut v = context_devs_inner();
+    for d in v.iter_mut() {
+        d.peripheral = true;
+    }
+    v
+}
+
+pub fn rare_shape_devs(n: usize, case_twin: bool) -> Vec<Dev> {
+    let mut v = rare_shape_devs_inner(n, case_twin);
+    for d in v.iter_mut() {
+        d.peripheral = true;
+    }
+    v
+}
+
+pub fn rebound_prelude_devs() -> Vec<Dev> {
+    let mut v = rebound_prelude_devs_inner();
+    for d in v.iter_mut() {
+        d.peripheral = true;
+    }
+    v
 }
